@@ -1,5 +1,23 @@
 import Ccp.Model.Edit
 import Ccp.Proofs.TreeForest
+/-!
+Helper lemmas and specification vocabulary for C06 (edits change exactly the targeted
+lines) and C07 (after commit the tree is that of a fresh parse).  Core Lean only.
+
+* `bootstrap`: the re-bootstrapping loop ends in a fixed point of the blank-line filter
+  (`FixPt`), hence `bootstrap_idempotent`, `parse_eq_bootstrap`; without
+  `ignore_blank_lines` the texts are kept; in general only blank lines are dropped
+  (`bootstrap_texts`).
+* the state machine: `step_cases` (shape of every step), frame lemmas, the invariants
+  `FreshInv` / `AutoInv`, `commit_idempotent`, staleness lemmas.
+* list primitives with Python's index conventions (`insertPos`, `popPos`, `pyInsert_eq`,
+  `pyPop_in_range`, …), `insertAtMatches` (`expandLine`, `matchCount`), `eraseAll`, all
+  polymorphic, and their commutation with `List.map` (texts of a list of items).
+* `NoFilter`, `edited_texts`: text effect of the auto-commit.
+* `appendIndex` case lemmas (child level / same indent / childless).
+* object handles (`posOf_some`, `posOf_committed`) and identities (`idsOf`, `IdsDistinct`,
+  `IdsSub`, `step_ids`).
+-/
 namespace Ccp.Edit
 open Ccp.Py Ccp.Tree
 
